@@ -4,9 +4,9 @@ maximum over q(u) is the collapsed (Titsias) bound, reached by one natural-gradi
 Every case generates q(u) as an explicit (mean, SPD covariance), encodes it into the chosen variational-distribution class
 (pbt.var_oracle.encode), builds the model / likelihood / objective through the public constructors and compares
 
-  objective.definition   VariationalELBO            (1/B) sum_i E_{q(f_i)} log p(y_i|f_i) - (beta/N) KL + (1/N) sum log-priors - added
-                         PredictiveLogLikelihood    first term (1/B) sum_i log E_{q(f_i)} p(y_i|f_i)
-                         GammaRobustVariationalELBO first term (1/B) sum_i c E_{q(f_i)} p(y_i|f_i)^(gamma-1)   (see ASSUMPTIONS)
+  elbo.definition          VariationalELBO = (1/B) sum_i E_{q(f_i)} log p(y_i|f_i) - (beta/N) KL + (1/N) sum log-priors - added
+  pll.definition           PredictiveLogLikelihood: first term (1/B) sum_i log E_{q(f_i)} p(y_i|f_i)
+  gamma_robust.definition  GammaRobustVariationalELBO: first term (1/B) sum_i g/(g-1) E_{q(f_i)} p(y_i|f_i)^(g-1) / I^((g-1)/g)  (GAMMA_NOTE)
   bound.lower            N ELBO(q) <= log N(y; m_X, K_XX + D)                for arbitrary generated q(u)
   bound.collapsed        N ELBO(q*) = Titsias' bound;  N ELBO(q) = Titsias - KL(q || q*) for perturbations q of q*;  Titsias <= log ML
   ngd.one_step           theta_1 = theta_0 + lr [ (N/B) theta_lik - beta (theta_0 - theta_prior) ];  lr = beta = 1: q_1 = q*
@@ -632,7 +632,6 @@ def run_lower(case, ctx: Ctx):
     got = n_elbo(ctx, case, r, dist, m, Sq, X, y, n, case["beta"], "elbo")
     # slack (DESIGN): 1e-8 (1 + |log ML|) + n jitter / noise (the jitter in Kzz~ / K_xx perturbs the model by that much) + numerics
     slack = 1e-8 * (1.0 + abs(logml)) + n * jit / float(sdiag.min()) + numeric_slack(blk, r, y, sdiag, m, Sq, X)
-    ctx.notes.setdefault("ratio", []).append(("elbo<=logml", (got - logml) / slack, got - logml, slack))
     ctx.check("elbo<=logml", got <= logml + slack, f"N*ELBO = {got:.12g} > log N(y; m, K + D) = {logml:.12g} (slack {slack:.3g})", kind="value")
     gap = logml - got
     ctx.set_nontrivial(VM.q_is_nontrivial(m, Sq) and n >= 2)
@@ -663,7 +662,6 @@ def run_collapsed(case, ctx: Ctx):
         return min(cs, key=lambda c: abs(c - v))
 
     e_star = n_elbo(ctx, case, r, dist, ms, Ss, X, y, n, 1.0, "elbo(q*)")
-    ctx.notes.setdefault("ratio", []).append(("elbo(q*)=titsias", abs(e_star - nearest(e_star, tits)) / tol, abs(e_star - nearest(e_star, tits)), tol))
     ctx.check("elbo(q*)=titsias", abs(e_star - nearest(e_star, tits)) <= tol,
               f"N*ELBO(q*) = {e_star:.12g}, Titsias' bound = {nearest(e_star, tits):.12g} (tol {tol:.3g})", kind="value")
     ctx.check("titsias<=logml", tits[0] <= logml + 1e-8 * (1.0 + abs(logml)) + n * jit / float(sdiag.min()),
@@ -681,8 +679,6 @@ def run_collapsed(case, ctx: Ctx):
         # conjugacy: N ELBO(q) = Titsias - KL(q || q*) exactly, for every q
         want = [t - float(VO.kl_mvn(mp_r, Sp_r, ms, Ss)) for t in tits]
         tol_g = (tol_p + tol) * max(1.0, VO.cond(Ss) ** 0.5)
-        ctx.notes.setdefault("ratio", []).append(("gap=KL", abs(e_p - nearest(e_p, want)) / tol_g, abs(e_p - nearest(e_p, want)), tol_g))
-        ctx.notes.setdefault("ratio", []).append(("pert<=opt", (e_p - e_star) / (tol_p + tol), e_p - e_star, tol_p + tol))
         ctx.check("gap=KL(q||q*)", abs(e_p - nearest(e_p, want)) <= tol_g,
                   f"eps={eps:g}: N*ELBO(q) = {e_p:.12g}, Titsias - KL(q||q*) = {nearest(e_p, want):.12g}", kind="value")
         ctx.check("perturbed<=logml", e_p <= logml + tol_p + 1e-8 * (1.0 + abs(logml)) + n * jit / float(sdiag.min()),
@@ -697,7 +693,7 @@ def run_collapsed(case, ctx: Ctx):
 # ---------------------------------------------------------------------------------------------------
 def run_ngd(case, ctx: Ctx):
     r, X, y, jit, blk_full, sdiag_full = regression_setup(case)
-    strat, n, M = r["strategy"], case["n"], case["M"]
+    strat, M = r["strategy"], case["M"]
     whitened = strat != "Unwhitened"
     idx, N, beta, lr = case["idx"], case["N"], case["beta"], case["lr"]
     B = len(idx)
